@@ -5,6 +5,8 @@ d = "/verif/seeded/%s-%s" % (pid, i)
 os.makedirs(d, exist_ok=True)
 shutil.copy(os.path.join(wt, "mut%s.diff" % i), os.path.join(d, "patch.diff"))
 shutil.copy(os.path.join(wt, "demo%s.py" % i), os.path.join(d, "demo.py"))
+if os.path.exists(os.path.join(wt, "NOTES.md")):
+    shutil.copy(os.path.join(wt, "NOTES.md"), os.path.join(d, "NOTES.md"))
 meta = {"property": pid, "needs": needs, "source": "independent sub-agent given only the property text and a scratch worktree",
         "confirmed": "vk/confirm_seed.sh: demo passes on clean HEAD, patch applies, 587 tests pass with the patch, demo fails with the patch",
         "checks_run": [], "caught_by": None}
